@@ -20,4 +20,6 @@ for d, _, fs in os.walk(root):
 srs = os.path.join(repo, "sql/types/spatial_reference_systems.go")
 if os.path.exists(srs) and os.path.getsize(srs) > 0:
     del rep[srs]
-json.dump({"Replace": rep}, open(out, "w"), indent=1)
+tmp = f"{out}.{os.getpid()}.tmp"
+json.dump({"Replace": rep}, open(tmp, "w"), indent=1)
+os.replace(tmp, out)
